@@ -65,6 +65,7 @@ type reqSpec struct {
 }
 
 type observation struct {
+	rid      string // concurrent reuse only: the request the observation belongs to
 	be       int
 	headers  map[string][]string
 	rawQuery string
@@ -144,6 +145,9 @@ type runner struct {
 	obs      []observation
 	calls    chan struct{}
 	expected int
+	// concurrent reuse: every distinct (request id, backend, observation) seen, once
+	conc     bool
+	distinct map[string]observation
 }
 
 func buildRunner(cs cfgSpec) *runner {
@@ -200,9 +204,21 @@ func buildRunner(cs cfgSpec) *runner {
 				o.parseErr = err.Error()
 			}
 			rn.mu.Lock()
-			rn.obs = append(rn.obs, o)
-			rn.mu.Unlock()
-			rn.calls <- struct{}{}
+			if rn.conc {
+				o.rid = "?"
+				if v := q["rid"]; len(v) == 1 {
+					o.rid = v[0]
+				}
+				key := fmt.Sprintf("%s|%d|%v|%s", o.rid, o.be, sortedHeaders(o.headers), o.rawQuery)
+				if _, ok := rn.distinct[key]; !ok {
+					rn.distinct[key] = o
+				}
+				rn.mu.Unlock()
+			} else {
+				rn.obs = append(rn.obs, o)
+				rn.mu.Unlock()
+				rn.calls <- struct{}{}
+			}
 			h := http.Header{}
 			h.Set("Content-Type", "application/json")
 			return &http.Response{StatusCode: 200, Header: h, Body: io.NopCloser(strings.NewReader(fmt.Sprintf(`{"b%d":true}`, i)))}, nil
@@ -243,6 +259,68 @@ func buildRunner(cs cfgSpec) *runner {
 		panic("router did not hand over a handler: " + cs.adapter)
 	}
 	return rn
+}
+
+func sortedHeaders(h map[string][]string) string {
+	ks := make([]string, 0, len(h))
+	for k := range h {
+		ks = append(ks, k)
+	}
+	sort.Strings(ks)
+	var b strings.Builder
+	for _, k := range ks {
+		fmt.Fprintf(&b, "%q=%q;", k, h[k])
+	}
+	return b.String()
+}
+
+// hammer: the ONE router/stack instance of rn is hit from several goroutines released by a
+// start gate, each iterating over the same small set of distinct requests (told apart by the
+// allowed query parameter rid). Returns every distinct (request, backend, observation) once.
+func (rn *runner) hammer(cs cfgSpec, reqs []reqSpec, goroutines, iterations int) map[string]observation {
+	rn.mu.Lock()
+	rn.conc = true
+	rn.distinct = map[string]observation{}
+	rn.mu.Unlock()
+	start := make(chan struct{})
+	var wg sync.WaitGroup
+	for gi := 0; gi < goroutines; gi++ {
+		wg.Add(1)
+		go func(gi int) {
+			defer wg.Done()
+			<-start
+			for k := 0; k < iterations; k++ {
+				rq := reqs[(gi*5+k)%len(reqs)]
+				rn.handler.ServeHTTP(httptest.NewRecorder(), wireRequest(cs, rq))
+			}
+		}(gi)
+	}
+	close(start)
+	wg.Wait() // every handler call returns after its backends were called (no concurrent_calls here)
+	rn.mu.Lock()
+	defer rn.mu.Unlock()
+	rn.conc = false
+	return rn.distinct
+}
+
+func wireRequest(cs cfgSpec, rq reqSpec) *http.Request {
+	var b bytes.Buffer
+	target := "/e"
+	if len(rq.query) > 0 {
+		target += "?" + rawQuery(rq.query)
+	}
+	fmt.Fprintf(&b, "%s %s HTTP/1.1\r\nHost: %s\r\n", cs.method, target, rq.host)
+	for _, l := range rq.lines {
+		fmt.Fprintf(&b, "%s: %s\r\n", l[0], l[1])
+	}
+	b.WriteString("\r\n")
+	b.WriteString(rq.body)
+	req, err := http.ReadRequest(bufio.NewReader(&b))
+	if err != nil {
+		panic(fmt.Sprintf("generator bug: request not readable: %v\n%q", err, b.String()))
+	}
+	req.RemoteAddr = remoteIP + ":4711"
+	return req
 }
 
 // serve sends one request as bytes on the wire would be read by net/http and returns what
@@ -358,6 +436,15 @@ func (g *gen) run(stream string, cs cfgSpec, reqs []reqSpec) {
 		}
 		obs, status := rn.serve(cs, rq)
 		for _, o := range obs {
+			g.emit(stream, cs, rq, o, status)
+		}
+	}
+}
+
+// emit writes one case: what backend o.be's executor was handed for request rq
+func (g *gen) emit(stream string, cs cfgSpec, rq reqSpec, o observation, status int) {
+	{
+		{
 			b := cs.bes[o.be]
 			ip := "None"
 			if knownIP(rq.lines) {
@@ -371,7 +458,7 @@ func (g *gen) run(stream string, cs cfgSpec, reqs []reqSpec) {
 				"endpoint_input_headers": cs.epH, "endpoint_input_query_strings": cs.epQ,
 				"backend_index": o.be, "backends": len(cs.bes),
 				"backend_input_headers": b.h, "backend_input_query_strings": b.q, "backend_url_pattern_query": b.static,
-				"request": map[string]interface{}{"header_lines": rq.lines, "raw_query": rawQuery(rq.query), "query_pairs": rq.query, "host": rq.host, "body": rq.body, "remote_addr": remoteIP + ":4711"},
+				"request":  map[string]interface{}{"header_lines": rq.lines, "raw_query": rawQuery(rq.query), "query_pairs": rq.query, "host": rq.host, "body": rq.body, "remote_addr": remoteIP + ":4711"},
 				"observed": map[string]interface{}{"executor_headers": o.headers, "executor_raw_query": o.rawQuery, "executor_query": o.query, "parse_error": o.parseErr, "client_status": status},
 			}
 			canon := fmt.Sprintf("%s|%s|%d|%q|%q|%d/%d|%q|%q|%q|%q|%q|%q|%q", cs.adapter, cs.method, cs.concurrent, cs.epH, cs.epQ, o.be, len(cs.bes), b.h, b.q, b.static, rq.lines, rq.query, rq.host, rq.body)
@@ -423,21 +510,29 @@ func listKind(l []string) string {
 
 func main() {
 	cfg := out.ParseFlags("C08")
+	realStdout := os.Stdout
 	if devnull, err := os.OpenFile(os.DevNull, os.O_WRONLY, 0); err == nil {
 		os.Stdout = devnull // negroni.Classic logs every request to stdout
 	}
 	gin.SetMode(gin.ReleaseMode)
+	if strings.HasPrefix(cfg.Extra, "conc-child:") {
+		concChild(cfg.Extra, realStdout)
+		return
+	}
 	r := rng.New(cfg.Seed)
 	w := out.NewWriter(cfg, "Verif.Corr.C08", 500)
 	g := &gen{w: w, cfg: cfg}
 
 	corpus(g)
+	reuseSequential(g)
 	exhaustive(g)
 	random(g, r)
 	canonCases(g, r)
+	reuseConcurrent(g) // last: the only stream whose case order is not needed by a deterministic replay
 
 	w.Close("one case per call of a backend's HTTPRequestExecutor (header map + parsed URL query), requests read by net/http from wire bytes and served by the real router of each adapter over config.Init-ed endpoints and proxy.NewDefaultFactory; "+
-		"corpus (section-8 defects, wildcard positions, gateway-owned names, literal * in backend lists); exhaustive: endpoint list x backend list over {A,B,*} up to length 2 (13x13), used for headers and query at once, x client sending every subset of {A,B,C} (adapter rotating; thorough: every adapter, and lists up to length 3 over {A,B} with duplicates x backend lists); "+
+		"instance reuse: ONE router+stack per configuration serving telling sequences of 5-6 different requests (stream reuse-seq, deterministic) and hit from 8 goroutines over 12 distinct requests (stream reuse-conc, each distinct request/observation pair once); "+
+		"corpus (section-8 defects, wildcard positions, gateway-owned names, literal * in backend lists); exhaustive: endpoint list x backend list over {A,B,*,\"\" (empty name)} up to length 2 (21x21; lists with the empty name x 5 of the 8 subsets, with the empty-named parameter ?=v), used for headers and query at once, x client sending every subset of {A,B,C} (adapter rotating; thorough: every adapter, and lists up to length 3 over {A,B} with duplicates x backend lists); "+
 		"random: lists up to 6 (mixed case, duplicates, wildcard), 0-7 header lines, 0-6 query pairs with repeated/empty/reserved values, static url_pattern queries, 1-2 backends, concurrent_calls 1-3, GET/POST; "+
 		"plus textproto.CanonicalMIMEHeaderKey on every single byte, every string up to 3 over a 9-symbol alphabet and random names; nontrivial = some list declared", true)
 }
